@@ -1,4 +1,5 @@
 """C08 — branches, paths, tips and furcations decompose the tree exactly."""
+import sys
 import warnings
 
 import numpy as np
@@ -23,8 +24,72 @@ def kids_of(pids):
     return k
 
 
+# trees that are themselves the product of the branch-tree builders, then used as ordinary trees (a BranchTree IS a Tree)
+AS_BRANCH_TREE = ["branch-tree", "to-branch-tree", "branch-tree-twice"]
+
+
+def comb_pids(rng, levels, spine, twig, fan):
+    """a neurite that gives off one side twig after another: root, then `levels` furcations nested in one another.
+    `spine` says which child of a furcation carries on (first / last / random), `twig` is the length of a side twig,
+    `fan` the number of children of a furcation (one of them is the spine, the others are twigs).  pid[i] < i."""
+    pids = [-1, 0]
+    cur = 1
+    for _ in range(levels):
+        at = {"first": 0, "last": fan - 1}.get(spine, rng.randrange(fan))
+        nxt = cur
+        for c in range(fan):
+            pids.append(cur)
+            if c == at:
+                nxt = len(pids) - 1
+            else:
+                for _k in range(twig - 1):
+                    pids.append(len(pids) - 1)
+        cur = nxt
+    return pids
+
+
+def deep_tree(rng, pids, label, renumber):
+    """tree case on a parent table that is too large for the random-position generator: distinct lattice positions by construction"""
+    if renumber:
+        pids = gen.renumber_root0(rng, pids)
+    n = len(pids)
+    a, b = rng.randint(2, 9), rng.randint(2, 9)
+    return {"class": label, "n": n, "pids": pids, "types": [rng.choice([1, 3])] + [3] * (n - 1),
+            "xyz": [[float(i), float((a * i) % 11), float((b * i) % 7)] for i in range(n)], "r": [1.0] * n}
+
+
 class Decomp(Suite):
     name = "c08.decomp"
+    case_timeout = 60.0      # the deep family takes 1-3 s per case on an idle machine; a timeout must never read as a violation
+
+    def deep_cases(self, rng, tier, widen):
+        """nesting beyond what the interpreter's call stack holds: the property is stated for all trees, and a spiny dendrite
+        or an axon with a thousand collaterals is a small tree (a few thousand nodes) whose furcations are nested a
+        thousand deep; an unbranched neurite of a few thousand points is a tree whose depth in nodes is as large.  The scale is
+        taken from the running interpreter (sys.getrecursionlimit()), not from any particular implementation."""
+        lim = sys.getrecursionlimit()
+        out = []
+        if tier == "thorough" or widen:
+            plan = [("comb", lim + rng.randint(30, 200), sp, 1, 2) for sp in ("first", "last", "random")]
+            plan += [("comb", 3 * lim // 2 + rng.randint(0, 50), rng.choice(["first", "last", "random"]), rng.randint(1, 3), rng.randint(2, 3)) for _ in range(2)]
+            plan += [("comb", 2 * lim, "random", 1, 2), ("chain", 3 * lim, "", 0, 0), ("chain", lim + rng.randint(30, 200), "", 0, 0)]
+            plan += [("comb", lim // 2, "random", 2, 3), ("comb", lim // 10, "last", 1, 2)]
+        else:
+            # quick: ONE comb just beyond the limit (which child carries on, twig length, fan-out drawn), one chain beyond it,
+            # and a medium comb well inside it
+            plan = [("comb", lim + rng.randint(30, 200), rng.choice(["first", "last", "random"]), rng.randint(1, 2), rng.randint(2, 3)),
+                    ("chain", lim + rng.randint(30, 200), "", 0, 0), ("comb", lim // 10, rng.choice(["first", "last", "random"]), rng.randint(1, 3), 2)]
+        for kind, levels, spine, twig, fan in plan:
+            if kind == "chain":
+                pids, label = [-1] + list(range(levels - 1)), f"deep/chain-{'beyond' if levels > lim else 'within'}-recursion-limit"
+            else:
+                pids = comb_pids(rng, levels, spine, twig, fan)
+                label = f"deep/comb-{'beyond' if levels > lim else 'within'}-recursion-limit/spine-{spine}"
+            if rng.random() < 0.3:         # the first furcation is the root itself (no stem)
+                pids = [-1] + [max(0, p - 1) for p in pids[2:]] if kind == "comb" else pids
+            t = deep_tree(rng, pids, label, renumber=rng.random() < 0.3)
+            out.append({"class": label, "tree": t, "big": True})
+        return out
 
     def cases(self, rng, tier, widen):
         out = []
@@ -38,12 +103,17 @@ class Decomp(Suite):
                 if t["n"] >= 3 and rng.random() < 0.6:
                     d = rng.choice(["sort", "copy-edit", f"redirect:{rng.randrange(1, t['n'])}"])
                     out.append({"class": t["class"] + "/derived-" + d.split(":")[0], "tree": t, "derive": d})
+                if t["n"] >= 3 and rng.random() < 0.5:
+                    d = rng.choice(AS_BRANCH_TREE)
+                    out.append({"class": t["class"] + "/as-" + d, "tree": t, "derive": d})
         # small scope, exhaustively: every tree with the root first on up to 4 (5) nodes
         for n in range(1, (6 if tier == "thorough" or widen else 5)):
             for j, pids in enumerate(gen.all_root0_trees(n)):
                 t = {"class": f"all-n{n}", "n": n, "pids": pids, "types": [[1, 3, 0][j % 3]] + [3] * (n - 1),
                      "xyz": [[float(i), float((i * i + j) % 7), float(i % 2)] for i in range(n)], "r": [1.0] * n}
                 out.append({"class": f"all-n{n}", "tree": t})
+                if n >= 3:
+                    out.append({"class": f"all-n{n}/as-branch-tree", "tree": t, "derive": AS_BRANCH_TREE[j % 3]})
         # the shape classes the property names, with guaranteed quota
         for pids in ([-1], [-1, 0], [-1, 0, 1], [-1, 0, 1, 2, 3], [-1, 0, 0], [-1, 0, 0, 0], [-1, 0, 1, 1], [-1, 0, 1, 2, 2, 2],
                      [-1, 2, 0, 2], [-1, 0, 1, 1, 3, 3]):
@@ -52,7 +122,9 @@ class Decomp(Suite):
             for rt in (1, 3):     # soma-typed root, and a neurite fragment whose root is an ordinary node
                 t = {"class": "named", "n": n, "pids": pids, "types": [rt] + [3] * (n - 1), "xyz": [[float(i), 0.0, 0.0] for i in range(n)], "r": [1.0] * n}
                 out.append({"class": "named" + ("" if rt == 1 else "/nonsoma-root"), "tree": t})
-        return out
+                if n >= 2:
+                    out.append({"class": "named/as-branch-tree", "tree": t, "derive": AS_BRANCH_TREE[(n + rt) % 3]})
+        return out + self.deep_cases(rng, tier, widen)
 
     def run(self, case):
         from swcgeom.core import BranchTree
@@ -74,23 +146,39 @@ class Decomp(Suite):
                 leaf = max(range(case["tree"]["n"]), key=lambda i: (i not in case["tree"]["pids"], i))
                 if leaf != 0 and leaf not in kids0:
                     t.ndata["pid"][leaf] = 0          # re-hang a tip directly under the root
+            elif d == "branch-tree":
+                t = BranchTree.from_tree(t)           # from here on the branch tree is the tree under test: a BranchTree is a Tree
+            elif d == "to-branch-tree":
+                from swcgeom.transforms import ToBranchTree as _ToBT
+
+                t = _ToBT()(t)
+            elif d == "branch-tree-twice":
+                t = BranchTree.from_tree(BranchTree.from_tree(t))
             else:
                 t = redirect_tree(t, int(d.split(":")[1]))
         res["pids_eff"] = t.pid().tolist()
         res["xyz_eff"] = t.xyz().astype(float).tolist()
-        res["branches"] = [[int(n.id) for n in br] for br in t.get_branches()]
-        res["paths"] = [[int(n.id) for n in p] for p in t.get_paths()]
-        res["tips"] = [int(n.id) for n in t.get_tips()]
-        res["furcations"] = [int(n.id) for n in t.get_furcations()]
-        res["node_branch"] = {str(i): [int(x) for x in t.node(i).branch().origin_id()] for i in range(min(case["tree"]["n"], 12))}
-        res["node_flags"] = {str(i): [bool(t.node(i).is_furcation()), bool(t.node(i).is_tip())] for i in range(min(case["tree"]["n"], 12))}
+        n_eff = len(res["pids_eff"])
+        # members of a path / branch are listed node by node; on the large trees through the documented id column of the path
+        # (origin_id: "the original id"), which is the same list without one Node object per member
+        ids_of = (lambda p: [int(v) for v in p.origin_id()]) if case.get("big") else (lambda p: [int(n.id) for n in p])
+        for key, what, f in (("branches", "Tree.get_branches()", lambda: [ids_of(br) for br in t.get_branches()]),
+                             ("paths", "Tree.get_paths()", lambda: [ids_of(p) for p in t.get_paths()]),
+                             ("tips", "Tree.get_tips()", lambda: [int(n.id) for n in t.get_tips()]),
+                             ("furcations", "Tree.get_furcations()", lambda: [int(n.id) for n in t.get_furcations()])):
+            try:
+                res[key] = f()
+            except Exception as e:  # noqa: BLE001 - the property promises a decomposition of every tree
+                return {"exc": type(e).__name__, "msg": f"{what} raised on a tree of {n_eff} nodes: {str(e)[:160]}"}
+        res["node_branch"] = {str(i): [int(x) for x in t.node(i).branch().origin_id()] for i in range(min(n_eff, 12))}
+        res["node_flags"] = {str(i): [bool(t.node(i).is_furcation()), bool(t.node(i).is_tip())] for i in range(min(n_eff, 12))}
         # the less-used entry points onto the same decomposition
         from swcgeom.transforms import ToBranchTree, ToLongestPath
 
         with warnings.catch_warnings():
             warnings.simplefilter("ignore")
             res["bifurcations_alias"] = [int(n.id) for n in t.get_bifurcations()]
-            if case["tree"]["n"] > 1:
+            if n_eff > 1:
                 lp = ToLongestPath(detach=False)(t)
                 res["longest"] = {"ids": [int(v) for v in lp.get_ndata("id")], "length": float(lp.length())}
                 lpd = ToLongestPath()(t)
@@ -114,7 +202,7 @@ class Decomp(Suite):
     def lines(self, case, res):
         if "exc" in res:
             return []
-        t = dict(case["tree"]); t["pids"] = res["pids_eff"]
+        t = dict(case["tree"]); t["pids"] = res["pids_eff"]; t["n"] = len(res["pids_eff"])
         a = f"ids={gen.ints(range(t['n']))} pids={gen.ints(t['pids'])}"
         sl = lambda ls: ";".join(gen.ints(b).replace("_", "") for b in ls)
         return [("branches " + a, sl(res["branches"])), ("paths " + a, sl(res["paths"])),
@@ -124,7 +212,7 @@ class Decomp(Suite):
         t = case["tree"]
         if "exc" in res:
             return [("decomp-raises", f"{res['exc']}: {res.get('msg')}")]
-        t = dict(t); t["pids"] = res["pids_eff"]; t["xyz"] = res["xyz_eff"]
+        t = dict(t); t["pids"] = res["pids_eff"]; t["xyz"] = res["xyz_eff"]; t["n"] = len(res["pids_eff"])
         pids, n = t["pids"], t["n"]
         kids = kids_of(pids)
         nk = lambda i: len(kids.get(i, []))
@@ -190,7 +278,10 @@ class Decomp(Suite):
             out.append(("furcations", f"get_bifurcations() {res['bifurcations_alias']} ≠ nodes with ≥2 children {furc}"))
         if "longest" in res:
             P = np.array(t["xyz"], dtype=np.float64)
-            plen = lambda ids: float(sum(np.linalg.norm(P[b] - P[a]) for a, b in zip(ids, ids[1:])))
+            def plen(ids):
+                a = np.asarray(ids, dtype=np.int64)
+                return float(np.linalg.norm(P[a[1:]] - P[a[:-1]], axis=1).sum())
+
             best = max(plen(p_) for p_ in res["paths"])
             L = res["longest"]
             if L["ids"] not in res["paths"] or abs(plen(L["ids"]) - best) > 1e-4 * max(1.0, best) or abs(L["length"] - best) > 1e-4 * max(1.0, best):
